@@ -39,8 +39,12 @@ FRESH_SOURCE = 'get_new_file_name'
 # sinks that by design rewrite one fixed file and are not "result, report and data-dump files"
 ALLOW = {
     ('biogeme.biogeme', 'BIOGEME.calculate_likelihood_and_derivatives', 'open'): (
-        'self._save_iterations_file_name()',
-        'iteration file __<model>.iter: a restart point that is rewritten on purpose with the best iterate so far; '
+        'tmp_name',
+        'temporary file "<iteration file>.tmp": the complete new content of the iteration file is written here first '
+        '(reviewed after the C15 repair: write to a temporary name, then os.replace); not a result/report/data-dump file'),
+    ('biogeme.biogeme', 'BIOGEME.calculate_likelihood_and_derivatives', 'os.replace'): (
+        'file_name',
+        'iteration file __<model>.iter: a restart point that is replaced on purpose, atomically, with the best iterate so far; '
         'its soundness is property C15, it is not a result/report/data-dump file'),
     ('biogeme.parameters', 'Parameters.dump_file', 'open'): (
         'file_name',
